@@ -15,6 +15,17 @@ CHECKS = {
    note="Trusted: Coq kernel + vm_compute; pandas label slicing / get_indexer(nearest) re-specified in Model/Windows.v and "
         "validated only on the sampled calls; harness/c20.py. No axioms (Print Assumptions: closed).",
    technique="Coq proof over list model + vm_compute correspondence"),
+ "C04": dict(
+   category="proof", design_ref="DESIGN.md section 5, C04",
+   text="Coq theorems over a life-cycle state machine of the three model families (guard order of fit/predict as coded, "
+        "to_json/from_json, arbitrary poor-fit oracle): fit raises DataSufficiencyError iff disqualified data and no override, "
+        "predict returns a frame only behind every guard (fitted, own data type, same time zone, no disqualification or override), "
+        "the gate and the inherited / poor-fit disqualifications survive storage and any history of operations. One corner is "
+        "refuted and recorded (refit of a reloaded hourly object). The machine is tied to the code by a correspondence over "
+        "operation histories with real fits; a literal oracle of the statement decides violations.",
+   note="Trusted: Coq kernel + vm_compute; Model/Gate.v (hand-written guard order) validated on sampled histories only; the numeric "
+        "fit is an oracle (that it never raises on qualified data is sampled); harness/c04.py, harness/fitlib.py. No axioms.",
+   technique="Coq proof over life-cycle state machine + history correspondence"),
 }
 NOT_YET = "check not built yet in this revision (planned, see DESIGN.md section 10)"
 
